@@ -96,6 +96,19 @@ class Walker:
             return None
         if e["k"] == "Path":
             return list(st["vecs"][e["path"]]) if e["path"] in st["vecs"] and st["vecs"][e["path"]] is not None else None
+        if e["k"] == "Call" and e["f"].get("path") in getattr(self, "vecbuilders", {}):
+            # a local function that only assembles the saved values from its parameters: its result, with the arguments put in
+            params, tmpl = self.vecbuilders[e["f"]["path"]]
+            if len(params) == len(e["args"]):
+                sub = {p_: norm(a) for p_, a in zip(params, e["args"])}
+                out = []
+                for x in tmpl:
+                    if isinstance(x, tuple):
+                        out.append(tuple([x[0], sub.get(x[1], x[1])] + list(x[2:])))
+                    else:
+                        out.append(sub.get(x, x))
+                return out
+            return None
         if e["k"] == "MethodCall" and e["method"] in ("clone", "to_vec") and e["recv"]["k"] == "Path":
             return self.eval_vec(e["recv"], st)
         if e["k"] == "MethodCall" and e["method"] == "collect":
@@ -406,6 +419,10 @@ class Walker:
                             st["vecs"][name] = self.eval_vec(init, st)
                         elif init["k"] == "Call" and init["f"].get("path") in ("Vec::new", "Vec::with_capacity"):
                             st["vecs"][name] = []
+                        elif init["k"] == "Call" and init["f"].get("path") in getattr(self, "vecbuilders", {}):
+                            v_ = self.eval_vec(init, st)
+                            if v_ is not None:
+                                st["vecs"][name] = v_
                         elif init["k"] == "MethodCall" and init["method"] in ("collect", "clone", "to_vec"):
                             # `let saved: Vec<Value> = popped.iter().rev().cloned().collect();` -- a named copy of a vector
                             v_ = self.eval_vec(init, st)
@@ -488,6 +505,23 @@ def restore_sites(ctx, res=None):
         elems = [norm(a) for a in rvs[0]["args"][0]["args"]]
         if all(isinstance(x, str) and x in pn for x in elems):
             builders[fn["name"]] = [pn.index(x) for x in elems]
+    # vector builders: local functions returning Vec<Value> that pop nothing and only arrange (clones of) their parameters
+    vecbuilders = {}
+    for impl, fn, test in fns:
+        if test or has_pop(fn["body"]) or fn.get("ret", "").replace(" ", "") != "Vec<Value>":
+            continue
+        if any(n["k"] == "Call" and n["f"].get("path") == "RestoreValues" for n in S.walk(fn["body"])):
+            continue
+        wv = Walker(ctx, fn, {}, [])
+        stv = {"popped": [], "vecs": {}}
+        wv.walk_block(fn["body"], stv)
+        tail = S.tail_expr(fn["body"])
+        tmpl = wv.eval_vec(tail, stv) if tail is not None else None
+        pn = [p_["name"] for p_ in fn["params"]]
+        if tmpl is not None and all((x in pn) if isinstance(x, str) else (x[1] in pn) for x in tmpl):
+            vecbuilders[fn["name"]] = (pn, tmpl)
+    if res is not None:
+        res.extra["saved_value_builders"] = {k_: show(v_[1]) for k_, v_ in vecbuilders.items()}
     # fallible local helpers that pop values but do not return RestoreValues themselves
     target_names = {fn["name"] for fn in targets}
     poppers = set()
@@ -518,6 +552,7 @@ def restore_sites(ctx, res=None):
             continue    # checked at its call sites, with the arguments substituted
         w = Walker(ctx, fn, helpers, initial)
         w.builders = builders
+        w.vecbuilders = vecbuilders
         w.poppers = poppers
         st = {"popped": list(initial), "vecs": vecs}
         w.walk_block(fn["body"], st)
